@@ -31,7 +31,7 @@ EdgeSet(es) == {<<es[i][1], es[i][2]>> : i \in DOMAIN es}
 
 \* ---- exhaustive observation of a usable index (successor state) ----
 AnsOK(a) ==
-    LET cl == Closure(ixc') IN
+    \E cl \in {Closure(ixc')} :       \* (evaluated once; TLC re-evaluates a LET definition at every use)
     /\ ToSet(a.nodes) = ixn'
     /\ Len(a.sub) = Cardinality(ixn') * Cardinality(ixn')
     /\ \A i \in DOMAIN a.sub : a.sub[i][3] = Sub(cl, a.sub[i][1], a.sub[i][2])
@@ -106,9 +106,8 @@ T_DelEdge == IsEv("DelEdge") /\ Ok /\ WriteCoverEdge(FALSE, <<Ev.c, Ev.p>>) /\ O
 
 \* ---- the planner-rewrite clause ----
 IsErr(r) == "err" \in DOMAIN r          \* rows are logged as [rows |-> <<..>>] or [err |-> message]
-QueryOK(q) ==
-    LET cl == Closure(cover)
-        op == IF q.kind = "rollup:sum" THEN "sum" ELSE IF q.kind = "rollup:count" THEN "count"
+QueryOK(cl, q) ==
+    LET op == IF q.kind = "rollup:sum" THEN "sum" ELSE IF q.kind = "rollup:count" THEN "count"
               ELSE IF q.kind = "rollup:min" THEN "min" ELSE "max"
     IN  /\ ~IsErr(q.with) /\ ~IsErr(q.without)
         \* same rows with and without the index (bags, normalised by the harness)
@@ -121,7 +120,9 @@ QueryOK(q) ==
              THEN NoDup(q.with.rows) /\ ToSet(q.with.rows) = Desc(cl, q.root)
              ELSE q.with.rows = <<Rollup(cl, meas, q.root, op)>>
 
-T_Queries == IsEv("Queries") /\ UNCHANGED hvars /\ (\A i \in DOMAIN Ev.q : QueryOK(Ev.q[i])) /\ Same
+T_Queries == /\ IsEv("Queries") /\ UNCHANGED hvars
+             /\ \E cl \in {Closure(cover)} : \A i \in DOMAIN Ev.q : QueryOK(cl, Ev.q[i])
+             /\ Same
 
 TNext == T_Fail \/ T_Reset \/ T_Graph \/ T_Build \/ T_Rebuild \/ T_UpdateMeasure \/ T_AddEdge \/ T_DelEdge \/ T_Queries
 TSpec == TInit /\ [][TNext]_tvars
